@@ -339,6 +339,13 @@ def run(ctx):
                         tree = price(T.CRR_TREE, c, ao, num_steps_per_year=400)
                     if tree[0] == 'f':
                         d = abs(x - tree[1]) / c['K']
+                        if fid is None and d > APPROX_TOL and scheme == 'BARONE_ADESI' and not call:
+                            # Is it the critical-price search (known defect of newton_secant, C20) rather than the
+                            # approximation?  Recompute the BAW put with S* solved by a bracketing root finder.
+                            ref = baw_put_reference(c)
+                            if ref is not None and abs(ref - tree[1]) / c['K'] <= APPROX_TOL and abs(x - ref) / c['K'] > 1e-4:
+                                fid = 'C12/baw-put-critical-price-wrong'
+                                case = dict(case, baw_with_bracketed_critical_price=ref)
                         if fid is None:
                             madd(f'{scheme}:|approx-CRR400|/K in validity domain', d)
                         if d > APPROX_TOL:
@@ -405,6 +412,39 @@ def run(ctx):
     ]
     return C.finish(ctx, 'proof', 'lake build FinVerif.Props.C12 && lake env lean .cache/audit/Audit_C12.lean',
                     C.TRUSTED_BASE_COMMON + ['hand model Model/C12.lean tied by correspondence only'], RULE)
+
+
+
+def baw_put_reference(c):
+    """Barone-Adesi & Whaley (1987) American put with the critical price S* found by a bracketing solver
+    (scipy brentq) and the exact normal cdf; None when no critical price is bracketed."""
+    from scipy.stats import norm
+    from scipy.optimize import brentq
+    S, K, r, q, t, v = c['S'], c['K'], c['r'], c['q'], c['t'], c['vol']
+    b = r - q
+    if r <= 0:
+        return None
+
+    def bsput(x):
+        d1 = (math.log(x / K) + (b + v * v / 2) * t) / (v * math.sqrt(t))
+        d2 = d1 - v * math.sqrt(t)
+        return K * math.exp(-r * t) * norm.cdf(-d2) - x * math.exp((b - r) * t) * norm.cdf(-d1), d1
+    M, N = 2 * r / v ** 2, 2 * b / v ** 2
+    kk = 1 - math.exp(-r * t)
+    q1 = (-(N - 1) - math.sqrt((N - 1) ** 2 + 4 * M / kk)) / 2
+
+    def g(x):
+        p, d1 = bsput(x)
+        return (K - x) - p + (1 - math.exp((b - r) * t) * norm.cdf(-d1)) * x / q1
+    try:
+        sstar = brentq(g, 1e-9 * K, K)
+    except ValueError:
+        return None
+    if S <= sstar:
+        return K - S
+    p, _ = bsput(S)
+    a1 = -(sstar / q1) * (1 - math.exp((b - r) * t) * norm.cdf(-bsput(sstar)[1]))
+    return p + a1 * (S / sstar) ** q1
 
 
 def replay(ctx, path):
